@@ -662,4 +662,66 @@ theorem wf_voipVersion : WF Schema.voipVersion := by
 theorem field_ok_plain {f : Field} (hs : ∀ v, f.skip v = false) (hd : f.dflt = none) : f.Ok :=
   ⟨fun _ v => hs v, fun d h => by rw [hd] at h; cases h⟩
 
+/-! ### The catch-all keeps unknown keys -/
+
+theorem mem_of_get {α : Type} : ∀ {l : List (Str × α)} {k : Str} {x : α}, Obj.get l k = some x → (k, x) ∈ l
+  | [], _, _, h => by simp [Obj.get] at h
+  | (k', v) :: t, k, x, h => by
+    unfold Obj.get at h
+    by_cases hk : k' = k
+    · rw [if_pos hk] at h
+      simp only [Option.some.injEq] at h
+      subst h; subst hk
+      exact List.mem_cons_self ..
+    · rw [if_neg hk] at h
+      exact List.mem_cons_of_mem _ (mem_of_get h)
+
+theorem getLast_of_unique {α : Type} : ∀ {l : List (Str × α)} {k : Str} {x : α},
+    l.filter (fun e => e.1 == k) = [(k, x)] → getLast l k = some x
+  | [], _, _, h => by simp at h
+  | (k', v) :: t, k, x, h => by
+    rw [List.filter_cons] at h
+    by_cases hk : k' = k
+    · subst hk
+      simp only [beq_self_eq_true, if_true, List.cons.injEq, Prod.mk.injEq, true_and] at h
+      obtain ⟨rfl, ht⟩ := h
+      have hnone : getLast t k' = none := by
+        apply getLast_none_of_not_mem
+        intro hm
+        obtain ⟨e, he, hek⟩ := List.mem_map.mp hm
+        have : e ∈ t.filter (fun e => e.1 == k') := List.mem_filter.mpr ⟨he, by simp [hek]⟩
+        rw [ht] at this; cases this
+      simp only [getLast, hnone, if_true]
+    · have hk' : (k' == k) = false := by simpa using hk
+      simp only [hk', Bool.false_eq_true, if_false] at h
+      have := getLast_of_unique h
+      simp only [getLast, this]
+
+theorem catch_all_keeps (fields : List Field) (o : Obj) (t : JVal) (k : Str) (v : JVal)
+    (h : project (.obj fields true) (.obj o) = some t) (hk : known fields k = false)
+    (hone : o.filter (fun e => e.1 == k) = [(k, v)]) :
+    ∃ o', t = .obj o' ∧ (k, serdeValue v) ∈ o' := by
+  rw [project_obj'] at h
+  cases hc : collect (outs fields o) with
+  | none => rw [hc] at h; cases h
+  | some out =>
+    rw [hc] at h
+    simp only [if_true, Option.some.injEq] at h
+    subst h
+    refine ⟨_, rfl, List.mem_append_right _ ?_⟩
+    apply mem_of_get
+    rw [get_ofList]
+    apply getLast_of_unique
+    rw [serdeValueO_eq_map, List.filter_map]
+    have : (o.filter (fun e => !known fields e.1)).filter ((fun e : Str × JVal => e.1 == k) ∘ fun e => (e.1, serdeValue e.2))
+        = [(k, v)] := by
+      rw [List.filter_filter, ← hone]
+      apply List.filter_congr
+      intro e _
+      by_cases he : e.1 = k
+      · simp [he, hk]
+      · simp [he]
+    rw [this]; rfl
+
+
 end Ruma.ContentSchema
